@@ -329,3 +329,81 @@ def stmt_count(ss: list) -> int:
 
 def prog_size(p: list) -> int:
     return sum(stmt_count(r[6]) for r in p[2])
+
+
+# ----------------------------------------------------------------------------- macros and file layouts
+class MacroGen(Gen):
+    """Programs with macros: acyclic call graphs (chains, diamonds, shared callees), any definition order,
+    all argument kinds, return at any depth, private labels; optionally spread over imported files."""
+
+    def __init__(self, rng: random.Random, cfg: Cfg | None = None):
+        super().__init__(rng, cfg)
+        self.callable: list[tuple[str, int]] = []   # (macro name, number of variables) callable from here
+        self.extra: list[str] = []                  # macro variables in scope
+
+    def ilike(self) -> list:
+        if self.extra and self.r.random() < 0.35:
+            return P_c(self.r.choice(self.extra))
+        while True:
+            p = super().ilike()
+            if p != P_c(PERF):
+                return p
+
+    def var(self) -> list:
+        if self.extra and self.r.random() < 0.3:
+            return P_c(self.r.choice(self.extra))
+        while True:
+            p = super().var()
+            if p != P_c(PERF):
+                return p
+
+    def call_arg(self) -> list:
+        x = self.r.random()
+        if x < 0.5:
+            return self.ilike()
+        if x < 0.8:
+            return self.string()
+        return self.posmark()
+
+    def plain(self) -> list:
+        if self.callable and self.r.random() < 0.3:
+            name, nv = self.r.choice(self.callable)
+            self.count("macrocall")
+            extra = self.r.choice([0, 0, 0, 1])
+            return [A("macrocall"), name, *[self.call_arg() for _ in range(nv + extra)]]
+        return super().plain()
+
+    def macro_program(self, n_files: int = 1) -> dict:
+        nm = self.r.randint(1, 5)
+        names = [f"m{i}" for i in range(nm)]
+        # calls go from lower to higher index; files: index non-decreasing
+        file_of = sorted(self.r.randrange(n_files) for _ in range(nm))
+        nvars = [self.r.choice([0, 1, 1, 2, 3]) for _ in range(nm)]
+        macros = []
+        for i in reversed(range(nm)):
+            self.callable = [(names[j], nvars[j]) for j in range(i + 1, nm) if self.r.random() < 0.6]
+            self.extra = [f"$p{k}" for k in range(nvars[i])]
+            ls = [f"{names[i]}_l{j}" for j in range(self.r.choice([0, 0, 1, 2]))] if self.c.labels else []
+            self.all_labels = list(ls)
+            self.pending = list(ls)
+            body: list = []
+            for _ in range(self.r.randint(1, 3)):
+                body.extend(self.stmt(2, False, False))
+            while self.pending:
+                body.insert(self.r.randint(0, len(body)), [A("label"), self.pending.pop()])
+            if not body:
+                body = [self.op_stmt_noctx()]
+            macros.append((i, [A("macro"), names[i], list(self.extra), body]))
+        macros.sort(key=lambda t: t[0])
+        self.extra = []
+        self.callable = [(names[j], nvars[j]) for j in range(nm)]
+        base = self.program()
+        routines = base[2]
+        # distribute over files, each in a random definition order
+        files = []
+        for f in range(n_files):
+            ms = [m for (i, m) in macros if file_of[i] == f]
+            self.r.shuffle(ms)
+            files.append(ms)
+        return {"macros_by_file": files, "routines": routines,
+                "flat": [A("prog"), [m for (_, m) in macros], routines]}
